@@ -26,6 +26,11 @@ class Canon:
         written = set()
         for n, target, op in A.writes(fn.body):
             vid = A.declref_id(target)
+            if vid is None:
+                # a write to a field / element of a by-value local mutates that local
+                p = A.access_path(target)
+                if p and p[0][0] == "var" and not any(c[0] == "deref" for c in p):
+                    vid = p[0][1]
             if vid is not None:
                 written.add((vid, id(n)))
         inc_nodes = set()
@@ -51,7 +56,12 @@ class Canon:
             wcount[vid] = wcount.get(vid, 0) + 1
         for n in walk(fn.body):
             if n.get("k") == "Var" and n.get("init") is not None and n["id"] not in self.loopvars:
-                if wcount.get(n["id"], 0) == 0:
+                if wcount.get(n["id"], 0) == 0 or n.get("ref"):
+                    si = strip(n["init"])
+                    if si is not None and si.get("k") in ("CXXConstructExpr", "CXXTemporaryObjectExpr") and \
+                            not ((si.get("ctor") or {}).get("copy") or (si.get("ctor") or {}).get("move")) and \
+                            not n.get("ref") and n.get("is") != "c":
+                        continue      # an object constructed in place is a variable of its own, not an alias
                     self.defs[n["id"]] = n["init"]
         # a by-value local that is mutated through a non-const member call is a variable, not a name for its
         # initialiser (references stay aliases of what they are bound to)
